@@ -542,7 +542,7 @@ theorem LInv.step (okg : GeomOk g) (hhf : Huge.isHuge g.hugeFrames = false)
     (inv : LInv strict g n F Post m ths ghs) (k : Nat) (hk : k < n) :
     match (ths k).step m with
     | .done a => Post a (ghs k)
-    | .dead s => strict = true → s = oobMsg
+    | .dead s => s = oobMsg ∨ (strict = false ∧ UpperMsg s)
     | .step t' m' _ => ∃ gh', LInv strict g n F Post m' (fupd ths k t') (fupd ghs k gh') := by
   have hs := inv.safe k
   have self : ∀ t', Th.SafeL strict g Post (ghs k) t' → ∃ gh', LInv strict g n F Post m (fupd ths k t') (fupd ghs k gh') := by
@@ -555,11 +555,11 @@ theorem LInv.step (okg : GeomOk g) (hhf : Huge.isHuge g.hugeFrames = false)
     rw [ht] at hs
     cases p with
     | ret a => exact hs
-    | panic s => intro h; have : strict = false := hs; rw [h] at this; cases this
+    | panic s => exact Or.inr hs
     | load kd i c =>
       simp only [Th.step]
       cases hv : m.get? kd i with
-      | none => exact fun _ => rfl
+      | none => exact Or.inl rfl
       | some v =>
         simp only
         cases kd with
@@ -574,12 +574,12 @@ theorem LInv.step (okg : GeomOk g) (hhf : Huge.isHuge g.hugeFrames = false)
       | tree =>
         simp only [Th.step]
         cases hv : m.get? .tree i with
-        | none => exact fun _ => rfl
+        | none => exact Or.inl rfl
         | some o => exact selfm _ _ rfl rfl hs
       | slot =>
         simp only [Th.step]
         cases hv : m.get? .slot i with
-        | none => exact fun _ => rfl
+        | none => exact Or.inl rfl
         | some o => exact selfm _ _ rfl rfl hs
     | swap kd i v c =>
       cases kd with
@@ -588,19 +588,19 @@ theorem LInv.step (okg : GeomOk g) (hhf : Huge.isHuge g.hugeFrames = false)
       | tree =>
         simp only [Th.step]
         cases hv : m.get? .tree i with
-        | none => exact fun _ => rfl
+        | none => exact Or.inl rfl
         | some o => exact selfm _ _ rfl rfl (hs o)
       | slot =>
         simp only [Th.step]
         cases hv : m.get? .slot i with
-        | none => exact fun _ => rfl
+        | none => exact Or.inl rfl
         | some o => exact selfm _ _ rfl rfl (hs o)
     | cas kd i e nw c =>
       cases kd with
       | row =>
         simp only [Th.step]
         cases hv : m.get? .row i with
-        | none => exact fun _ => rfl
+        | none => exact Or.inl rfl
         | some o =>
           simp only
           have hkn := inv.known k i o (by simpa using hv)
@@ -615,7 +615,7 @@ theorem LInv.step (okg : GeomOk g) (hhf : Huge.isHuge g.hugeFrames = false)
       | huge =>
         simp only [Th.step]
         cases hv : m.get? .huge i with
-        | none => exact fun _ => rfl
+        | none => exact Or.inl rfl
         | some o =>
           simp only
           have hkn := inv.knownE' k hk i o (by simpa using hv)
@@ -630,7 +630,7 @@ theorem LInv.step (okg : GeomOk g) (hhf : Huge.isHuge g.hugeFrames = false)
       | tree =>
         simp only [Th.step]
         cases hv : m.get? .tree i with
-        | none => exact fun _ => rfl
+        | none => exact Or.inl rfl
         | some o =>
           simp only
           by_cases he : o = e
@@ -639,7 +639,7 @@ theorem LInv.step (okg : GeomOk g) (hhf : Huge.isHuge g.hugeFrames = false)
       | slot =>
         simp only [Th.step]
         cases hv : m.get? .slot i with
-        | none => exact fun _ => rfl
+        | none => exact Or.inl rfl
         | some o =>
           simp only
           by_cases he : o = e
@@ -648,7 +648,7 @@ theorem LInv.step (okg : GeomOk g) (hhf : Huge.isHuge g.hugeFrames = false)
     | casPart i sh w e nw c =>
       simp only [Th.step]
       cases hv : m.get? .row i with
-      | none => exact fun _ => rfl
+      | none => exact Or.inl rfl
       | some o =>
         simp only
         have hkn := inv.known k i o (by simpa using hv)
@@ -663,26 +663,26 @@ theorem LInv.step (okg : GeomOk g) (hhf : Huge.isHuge g.hugeFrames = false)
       | row =>
         simp only [Th.step]
         cases hv : m.get? .row i with
-        | none => exact fun _ => rfl
+        | none => exact Or.inl rfl
         | some o =>
           simp only
           exact self _ (afterUpdL_row (ghs k) i f c o (inv.known k i o (by simpa using hv)) hs)
       | huge =>
         simp only [Th.step]
         cases hv : m.get? .huge i with
-        | none => exact fun _ => rfl
+        | none => exact Or.inl rfl
         | some o =>
           simp only
           exact self _ (afterUpdL_huge (ghs k) i f c o (inv.knownE' k hk i o (by simpa using hv)) hs)
       | tree =>
         simp only [Th.step]
         cases hv : m.get? .tree i with
-        | none => exact fun _ => rfl
+        | none => exact Or.inl rfl
         | some o => simp only; exact self _ (afterUpdL_tree (ghs k) i f c o hs)
       | slot =>
         simp only [Th.step]
         cases hv : m.get? .slot i with
-        | none => exact fun _ => rfl
+        | none => exact Or.inl rfl
         | some o => simp only; exact self _ (afterUpdL_slot (ghs k) i f c o hs)
   | updCas kd i f cur new c =>
     rw [ht] at hs
@@ -691,7 +691,7 @@ theorem LInv.step (okg : GeomOk g) (hhf : Huge.isHuge g.hugeFrames = false)
       obtain ⟨⟨gh', tr, hsafe⟩, hupd⟩ := hs
       simp only [Th.step]
       cases hv : m.get? .row i with
-      | none => exact fun _ => rfl
+      | none => exact Or.inl rfl
       | some o =>
         simp only
         by_cases he : o = cur
@@ -704,7 +704,7 @@ theorem LInv.step (okg : GeomOk g) (hhf : Huge.isHuge g.hugeFrames = false)
       obtain ⟨⟨gh', tr, hsafe⟩, hupd⟩ := hs
       simp only [Th.step]
       cases hv : m.get? .huge i with
-      | none => exact fun _ => rfl
+      | none => exact Or.inl rfl
       | some o =>
         simp only
         by_cases he : o = cur
@@ -717,7 +717,7 @@ theorem LInv.step (okg : GeomOk g) (hhf : Huge.isHuge g.hugeFrames = false)
       obtain ⟨hsafe, hupd⟩ := hs
       simp only [Th.step]
       cases hv : m.get? .tree i with
-      | none => exact fun _ => rfl
+      | none => exact Or.inl rfl
       | some o =>
         simp only
         by_cases he : o = cur
@@ -727,7 +727,7 @@ theorem LInv.step (okg : GeomOk g) (hhf : Huge.isHuge g.hugeFrames = false)
       obtain ⟨hsafe, hupd⟩ := hs
       simp only [Th.step]
       cases hv : m.get? .slot i with
-      | none => exact fun _ => rfl
+      | none => exact Or.inl rfl
       | some o =>
         simp only
         by_cases he : o = cur
